@@ -238,6 +238,40 @@ def r5(R):
         for v in vs:
             R.violation(v.node, v.message, g, v.path)
         if meth == 'loadSerial':
+            # a revision the changes do not have is ALWAYS asked of the
+            # base (an exact revision of the base is the same one whatever
+            # was packed in the changes): the POSKeyError of the changes
+            # never leaves loadSerial without the base having been asked
+            def edge_b(node, st, lab, tgt, F=F):
+                if node.kind == 'handler' and node.ast.type is not None and \
+                        'POSKeyError' in ast.unparse(node.ast.type) and \
+                        st == 'start':
+                    return 'changes-miss'
+                for op in F.ops(node):
+                    if op.kind == 'call' and op.path and len(op.path) == 3 \
+                            and tuple(op.path[:2]) == ('self', 'base') and \
+                            op.path[2] in ('loadSerial', 'loadBefore',
+                                           'load'):
+                        return 'base-asked'
+                return st
+
+            def at_b(node, st):
+                if node.id == g.exit_raise and st == 'changes-miss':
+                    return Violation(
+                        'DemoStorage.loadSerial lets the changes storage\'s '
+                        'POSKeyError out without having asked the base: a '
+                        'revision that lives in the base is reported '
+                        'missing -- conflict resolution cannot load the '
+                        'state the writer started from and the commit fails '
+                        'instead of merging')
+                return st
+
+            vb, stats = explore(g, 'start', at=at_b, edge=edge_b)
+            R.count(stats)
+            for v in vb[:1]:
+                R.violation(v.node, v.message, g, v.path,
+                            key='base not asked for a revision the changes '
+                                'lack')
             # the exact revision: what is returned comes from a layer's
             # loadSerial, or from a load whose tid was held against the
             # requested serial
@@ -832,3 +866,60 @@ def r14(R):
         R.violation(v.node, v.message, g, v.path,
                     key='nothing answered without looking at the object\'s '
                         'oldest revision')
+
+
+# ----------------------------------------------------------------- C16.R15
+@rule('C16.R15', 'a wrapper storage that takes a gc argument in pack() '
+      'hands it on whenever it was given, False included: a demo storage '
+      'passes gc=False so that the changes are NOT garbage-collected on '
+      'their own (a sweep of the changes alone cannot follow references '
+      'through the base)', props=['C07'], min_instances=1)
+def r15(R):
+    n = 0
+    for cq in ('ZODB.blob.BlobStorage',):
+        cls = R.prog.cls(cq)
+        f = R.method(cls, 'pack')
+        n += 1
+        R.instance('%s.pack' % cls.name, takes_gc='gc' in f.params)
+        if 'gc' not in f.params:
+            continue
+        g, b, F = R.cfg(f, cls, max_depth=0)
+
+        def edge(node, st, lab, tgt):
+            if node.kind == 'test' and lab in ('T', 'F'):
+                for e, truth in implied_atoms(node.ast, lab):
+                    if isinstance(e, ast.Compare) and len(e.ops) == 1 and \
+                            isinstance(e.left, ast.Name) and \
+                            e.left.id == 'gc' and isinstance(
+                                e.comparators[0], ast.Constant) and \
+                            e.comparators[0].value is None:
+                        if isinstance(e.ops[0], ast.Is) == truth:
+                            return 'not-given'
+                        return 'given'
+            return st
+
+        def at(node, st, F=F):
+            for op in F.ops(node):
+                if op.kind == 'call' and op.path and \
+                        op.path[-1] == 'pack' and op.path[0] != 'self' or (
+                        op.kind == 'call' and op.path and
+                        op.path[-1] == 'pack' and len(op.path) >= 3):
+                    passes = any(kw.arg == 'gc' for kw in op.ast.keywords) \
+                        or len(op.ast.args) >= 3
+                    if not passes and st != 'not-given':
+                        return Violation(
+                            '%s.pack calls the wrapped storage\'s pack '
+                            'without the gc argument on a path on which gc '
+                            'may have been given as False: the wrapped '
+                            'storage then garbage-collects by default -- for '
+                            'the changes of a demo storage with a base that '
+                            'removes everything reachable only through '
+                            'objects of the base' % cls.name)
+            return st
+
+        vs, stats = explore(g, 'unknown', at=at, edge=edge)
+        R.count(stats)
+        for v in vs[:1]:
+            R.violation(v.node, v.message, g, v.path,
+                        key='gc argument dropped')
+    R.require(n >= 1, 'wrapper pack not found')
